@@ -230,13 +230,18 @@ func (n *networkTopology) replicaMap(tokenRing *tokenRing) tokenRingReplicas {
 		}
 
 		replicas := make([]*HostInfo, 0, totalRF)
+		// hosts met on this walk; a host owning several tokens (vnodes) is considered once
+		visited := make(map[*HostInfo]struct{})
 		for j := 0; j < len(tokens) && (len(replicas) < totalRF && !n.haveRF(replicasInDC)); j++ {
-			// TODO: ensure we dont add the same host twice
 			p := i + j
 			if p >= len(tokens) {
 				p -= len(tokens)
 			}
 			h := tokens[p].host
+			if _, ok := visited[h]; ok {
+				continue
+			}
+			visited[h] = struct{}{}
 
 			dc := h.DataCenter()
 			rack := h.Rack()
